@@ -285,6 +285,39 @@ func runC06(r *Run, p *Prog) {
 		if n == 0 {
 			r.Unresolved("Q5", "success return of the entry point")
 		}
+		// ... and only with an interface name: the reader of the name yields "" for text that is no name, and that is
+		// tested before the member loop can succeed
+		if ml := m.memberLoop; ml != nil {
+			idlT := p.NamedType(pkgIDL, "IDL")
+			var nameV ssa.Value
+			for _, b := range ml.Blocks {
+				for _, in := range b.Instrs {
+					st, ok := in.(*ssa.Store)
+					if !ok {
+						continue
+					}
+					fa, ok := st.Addr.(*ssa.FieldAddr)
+					if !ok || fieldName(fa.X, fa.Field) != "Name" {
+						continue
+					}
+					if pt, ok := fa.X.Type().Underlying().(*types.Pointer); ok && idlT != nil && types.Identical(pt.Elem(), idlT) {
+						nameV = st.Val
+					}
+				}
+			}
+			if nameV == nil {
+				r.Unresolved("Q5", "the store of the interface name in the member loop's function")
+			} else {
+				res := ml.Signature.Results()
+				for _, rv := range returnedValues(ml, res.Len()-1) {
+					if T.T(rv.Val) != "nil" {
+						continue
+					}
+					r.Ob("Q5", shortName(ml), "parsing succeeds only with a non-empty interface name", rv.Ret.Pos(), hasFact(T.FactsAt(rv.Ret.Block()), "NE", T.T(nameV), `const:""`),
+						"the success return is reachable without the interface name having been tested against \"\": `interface` followed by something that is no name is accepted with an empty name")
+				}
+			}
+		}
 		// error returns carry no tree
 		for _, rv := range returnedValues(e, 0) {
 			for _, rv2 := range returnedValues(e, 1) {
@@ -493,12 +526,12 @@ func runC06(r *Run, p *Prog) {
 								return true
 							}
 							for _, f := range fs2 {
-								sx := strip(f.String())
-								if strings.Contains(sx, "call:len(") && strings.Contains(sx, ".Fields)") {
-									_, hi := intervalOf(fs2, strings.TrimPrefix(strings.TrimSuffix(sx[strings.Index(sx, "call:len("):], ")"), ""))
-									_ = hi
-									if f.Op == "LE" || f.Op == "EQ" {
-										return true // len(fields) <= 0 / == 0
+								for _, t := range []string{f.A, f.B} {
+									st := strip(t)
+									if strings.HasPrefix(st, "call:len(") && strings.HasSuffix(st, ".Fields)") {
+										if _, hi := intervalOf(fs2, t); hi <= 0 {
+											return true // len(fields) == 0: the first entry
+										}
 									}
 								}
 							}
@@ -755,6 +788,37 @@ func runC06(r *Run, p *Prog) {
 		}
 		if n == 0 {
 			r.Unresolved("Q10", "interface-name patterns")
+		}
+		// the length limit of the grammar: a matched name is accepted (the cursor advanced, the match returned) only
+		// where len(match) <= 255 is established - with exactly that bound
+		nl := 0
+		for _, f := range a.methods {
+			if len(compiledPatterns(p, f)) == 0 {
+				continue
+			}
+			for _, b := range f.Blocks {
+				for _, in := range b.Instrs {
+					st, ok := in.(*ssa.Store)
+					if !ok || !isRecvField(st.Addr, f, a.posIdx, a.cursorT) {
+						continue
+					}
+					bo, ok := st.Val.(*ssa.BinOp)
+					if !ok || bo.Op != token.ADD {
+						continue
+					}
+					lc, ok := bo.Y.(*ssa.Call)
+					if !ok {
+						continue
+					}
+					if bi, isB := lc.Call.Value.(*ssa.Builtin); !isB || bi.Name() != "len" {
+						continue
+					}
+					nl++
+					_, hi := intervalOf(T.FactsAt(b), T.T(lc))
+					r.Ob("Q10", shortName(f), fmt.Sprintf("match #%d is accepted only up to 255 bytes", nl), st.Pos(), hi == 255,
+						fmt.Sprintf("the cursor advances over a matched interface name whose length is bounded by %d here, not by 255: an over-long name is accepted, or a name of the maximum length refused", hi))
+				}
+			}
 		}
 	})
 }
